@@ -583,6 +583,9 @@ def lift2(op, a, b):
     return NArr2(ref.rows, ref.cols, lambda i, j: op(A.elem(i, j) if A else a, Bv.elem(i, j) if Bv else b), ref.dtype, "op2")
 
 
+NPROUND = z3.Function("NPROUND", z3.RealSort(), z3.IntSort(), z3.RealSort())
+
+
 def install2(I):
     np_tab = I.ext["numpy"]
     np_tab["inf"] = Inf(True)
@@ -664,6 +667,23 @@ def install2(I):
             return Sym(idx)
         return NArr(x.n, elem, "int", "digitize")
     np_tab["digitize"] = Builtin("numpy.digitize", digitize)
+    def np_round(ctx, a, decimals=0):
+        ctx.assumed_ext.add("numpy.round / around(x, d): element-wise, the same (uninterpreted) function of (value, decimals) everywhere; +-inf stays")
+        d = B._z(decimals) if not isinstance(decimals, int) else z3.IntVal(decimals)
+
+        def r1(v):
+            if isinstance(v, Inf):
+                return v
+            if isinstance(v, MaybeInf):
+                return MaybeInf(v.isinf, r1(v.val), v.isneg)
+            return Sym(NPROUND(B.zreal(v), d))
+        if isinstance(a, NArr2):
+            return NArr2(a.rows, a.cols, lambda i, j: r1(a.elem(i, j)), a.dtype, "round")
+        if isinstance(a, NArr):
+            return NArr(a.n, lambda i: r1(a.elem(i)), a.dtype, "round")
+        return r1(a)
+    np_tab["round"] = Builtin("numpy.round", np_round)
+    np_tab["around"] = Builtin("numpy.around", np_round)
     np_tab["size"] = Builtin("numpy.size", lambda ctx, a: B.wrap(zn(as_narr(I, ctx, a))) if not isinstance(a, NArr2) else B.wrap(B._z(a.rows) * B._z(a.cols)))
     np_tab["finfo"] = Builtin("numpy.finfo", lambda ctx, t: Opaque(None, "finfo", {"fields": {"eps": 0}}))
     np_tab["float64"] = np_tab.get("float64")
